@@ -261,7 +261,7 @@ impl Ctx {
             }
             Exp::Val(v) => match &obs.out {
                 Outcome::Ok(got) if got == v => {
-                    if obs.log != tr.lines {
+                    if !log_matches(&obs.log, tr) {
                         bad = Some((format!("Ok({}) log={:?}", v, tr.lines), obs.show()));
                     }
                 }
@@ -271,7 +271,7 @@ impl Ctx {
         if bad.is_none() && *exp == Exp::Err {
             // on errors the implementation may stop earlier than R (parse-time detection),
             // never print more
-            if !dominated(&obs.log, &tr.lines) {
+            if !log_dominated(&obs.log, tr) {
                 bad = Some((format!("Err with log within {:?}", tr.lines), obs.show()));
             }
         }
@@ -355,6 +355,65 @@ impl Ctx {
             "extra": self.extra,
         })
     }
+}
+
+/// Does an observed line report this logged value? The line *format* is not pinned by any
+/// property, so a line matches when it contains the value's JSON text (or, for a string, its
+/// raw content).
+pub fn line_reports(line: &str, value: &Value) -> bool {
+    let t = value.to_string();
+    if line.contains(&t) {
+        return true;
+    }
+    match value {
+        Value::String(s) => !s.is_empty() && line.contains(s.as_str()),
+        _ => false,
+    }
+}
+
+/// The observed log against R's trace: one line per evaluated `log`; in R's order where the
+/// properties pin the order of evaluation, as a multiset otherwise.
+pub fn log_matches(obs: &[String], tr: &Trace) -> bool {
+    if obs.len() != tr.values.len() {
+        return false;
+    }
+    if tr.order_pinned {
+        return obs.iter().zip(&tr.values).all(|(l, v)| line_reports(l, v));
+    }
+    let mut pool: Vec<&Value> = tr.values.iter().collect();
+    // match exact texts first so that a value contained in another one's text cannot steal its line
+    let mut rest: Vec<&String> = Vec::new();
+    for l in obs {
+        match pool.iter().position(|v| v.to_string() == *l) {
+            Some(i) => {
+                pool.remove(i);
+            }
+            None => rest.push(l),
+        }
+    }
+    for l in rest {
+        match pool.iter().position(|v| line_reports(l, v)) {
+            Some(i) => {
+                pool.remove(i);
+            }
+            None => return false,
+        }
+    }
+    true
+}
+
+/// On errors the implementation may stop earlier than R, never print more.
+pub fn log_dominated(obs: &[String], tr: &Trace) -> bool {
+    let mut pool: Vec<&Value> = tr.values.iter().collect();
+    for l in obs {
+        match pool.iter().position(|v| line_reports(l, v)) {
+            Some(i) => {
+                pool.remove(i);
+            }
+            None => return false,
+        }
+    }
+    true
 }
 
 /// multiset inclusion of log lines
